@@ -408,5 +408,18 @@ example : pushed (1 : ℝ) (runLog 1 1 0 [.extract2 { ps := [[3]], ws := [0] }])
   simp [runLog, runLogFrom, pushed, step, extract2, EE.init, Method.stat, Method.fam, windowed,
     baseEst, modeEst, argmaxFirst, argmaxAux, EE.setCached]
 
+/-- The same deviation in windowed form: the first windowed call after construction (or `clear`) holds a
+    single estimate, which is returned with its circular component unwrapped — here `smode` on one
+    particle at angle 7 returns 7, whereas "averaged on the circle" it is `arg e^{7i} = 7 − 2π`. -/
+theorem windowed_circular_counterexample :
+    (step (1 : ℝ) (run 1 0 1 [.setMethod .smode]) (.extract2 { ps := [[7]], ws := [0] })).2.est = some [7] ∧
+    (7 : ℝ) ≠ Complex.arg (resultant [7] [1]) := by
+  constructor
+  · simp [run, runFrom, step, extract2, EE.init, Method.stat, Method.fam, windowed, baseEst, modeEst,
+      argmaxFirst, argmaxAux, EE.setCached, HistBuf.add, HistBuf.init, EE.cached, famWeights, smWeights,
+      meanEst, dirMean, rowOf]
+  · have h := dirMean_single_counterexample.2
+    rwa [dirMean_single] at h
+
 end C17
 end BFL
